@@ -68,6 +68,11 @@ CHECKS = {
          "the process must hold no new library allocation (sites reported), no new descriptor, no /dev/shm mapping, none of the sequence's IPC names, and every descriptor the library obtained must have been closed exactly once; "
          "after p_libsys_shutdown no library block may be alive at all.",
     note="glibc-internal descriptors only via /proc/self/fd; anonymous mappings not compared; one warm-up run precedes each snapshot."),
+ "C04": dict(cat="exploration", ref="§3 C04",
+    technique="runtime value oracle (C unsigned arithmetic) + concurrent history checkers (permutation / chain / exactly-one / bit ownership) + store-buffering and message-passing litmus tests, per atomic model; TSan for c11 and sim",
+    text="All three atomic models (c11, sync, sim) are built by the repository's own CMake and driven by the same harness: exhaustive boundary operand pairs + random pairs against wrapping 32-bit / pointer-width arithmetic; "
+         "T<=64 threads of tickets, strides, refcounts, CAS counters, bit ownership and tagged words whose returned values must form a sequential history; SB litmus (set/get as full barriers, (0,0) forbidden; verified to fire when set/get are weakened to release/acquire) and MP with plain payload under TSan.",
+    note="TSan not applied to sync; UBSan not applied to sim wrap-around operands; x86-TSO hides some barrier weakenings from the value oracles."),
 }
 
 NOT_YET = {}
